@@ -450,7 +450,6 @@ template <int D> int run_nd(const std::string& out, long first, long nseq, int l
       }
       if (!aborted) o.err = vh::threw([&] { perform<D>(y, op, o); });
       std::string extra;
-      if (op.want_contig && !o.err && !aborted) extra = std::string("\"contig\":") + (y.s[op.t - 1]->is_contiguous() ? "true" : "false");
       std::string post = observe<D>(y, extra);
       g_cur.clear();
       vh::Json j; j.str("e", "Step").str("ty", ty).raw("op", nop_json(op)).arr("res", o.res).boolean("err", o.err).boolean("abort", aborted).raw("post", post);
